@@ -96,7 +96,7 @@ func ownChain(r *rd) [][]byte {
 // ownDecode: strict RFC 6962 decoding of (leaf_input, extra_data); nothing may be left over
 func ownDecode(li, extra []byte) (*ownEntry, bool) {
 	r := &rd{b: li, ok: true}
-	r.uint(1) // version: the enum admits 0..255
+	r.uint(1)           // version: the enum admits 0..255
 	if r.uint(1) != 0 { // leaf type timestamped_entry
 		return nil, false
 	}
@@ -139,7 +139,7 @@ func entrySpecs(r randT, fx *fixtures) []entrySpec {
 	x := &entry{cert: fx.leaf.DER}
 	xLeaf := encLeaf(ts, x, nil)
 	xExtra := encChain([][]byte{fx.inter.DER, fx.root.DER})
-	p := deriveEntry(fx.chain("pre-3").certs, true)
+	p := entryOf(fx.chain("pre-3"), true)
 	pLeaf := encLeaf(ts, p, randBytes(r, r.Intn(3)))
 	pExtra := encPrecertExtra(fx.pre.DER, [][]byte{fx.inter.DER, fx.root.DER})
 	junk := &entry{cert: []byte("junk: not DER at all")}
